@@ -563,6 +563,26 @@ def rule_workers(ctx, prop):
                                     "the output loop has no early exit")
     for cfg, prog in ctx.programs.items():
         prog = _view(prog)
+        # the pool always has a thread left for the formatters: the output reader occupies one worker for the whole run, so
+        # ThreadPool::new gets max(n, k) with k >= 2 (with a single worker every formatter job waits behind the reader forever)
+        ff = prog.fn("stylua", "format")
+        if ff is not None:
+            tp = [(b, t) for b, t in ff.calls() if callee(t) == "threadpool::ThreadPool::new"]
+            if rep.anchor(len(tp) == 1, "ThreadPool::new in format", cfg):
+                okp = False
+                for r in provenance(ff, tp[0][1]["args"][0], through=None):
+                    if r[0] == "const" and re.match(r"^v:\d+$", r[1]) and int(r[1][2:]) >= 2:
+                        okp = True
+                    if r[0] == "call" and re.search(r"cmp::max$|Ord>?::max$|::max$", r[1]):
+                        mt = ff.blocks[r[2]]["term"]
+                        if any(is_const(a) and isinstance(a.get("v"), int) and a.get("v") >= 2 for a in mt["args"]):
+                            okp = True
+                rep.inst("stylua::format pool size is at least 2", None, cfg, ok=okp)
+                if not okp:
+                    rep.violation("stylua::format pool-size-not-bounded-below",
+                                  "ThreadPool::new is not given max(num_threads, 2) (or a constant >= 2): with --num-threads 1 "
+                                  "the output reader takes the only worker, no file is ever formatted and no exit status is "
+                                  "produced", ff.loc(tp[0][1]["sp"]), cfg)
         f = prog.fn("stylua", "format")
         if not rep.anchor(f is not None, "fn format", cfg):
             continue
